@@ -112,6 +112,10 @@ thread_local! {
 
 pub fn build_path(f: &Facts, path: PathSel, noise: &JaxNoise) -> Result<Ontology, String> {
     match path {
+        // (every other fact set goes through the Builder with calls that fail and are ignored in between:
+        // by C15 they leave no trace)
+        PathSel::Builder if f.terms.len() % 2 == 1 => via_builder_with_failing_calls(f, Finish::Minimal),
+        PathSel::BuilderDefaults if f.edges.len() % 2 == 1 => via_builder_with_failing_calls(f, Finish::Defaults),
         PathSel::Builder => via_builder(f, Finish::Minimal),
         PathSel::BuilderDefaults => via_builder(f, Finish::Defaults),
         PathSel::Bin(v) => via_binary(f, v),
